@@ -2,3 +2,4 @@ import SynKitModel.Basic
 import SynKitModel.Graph
 import SynKitModel.Store
 import SynKitModel.Match
+import SynKitModel.ITS
